@@ -2,7 +2,7 @@
    (state part first; the progress certificate of the wind-down at the end).
    Model and reachability as in Properties_C04.v. *)
 From Coq Require Import List Bool Arith NArith.
-From Pipe Require Import PipeModel PipeInvDefs PipeStep PipeSysProps PipeLive PipeLiveSys PipeExamples.
+From Pipe Require Import PipeModel PipeInvDefs PipeStep PipeSysProps PipeLive PipeLiveG PipeLiveSys PipeExamples.
 Import ListNotations.
 
 (* when acquire_abort (or acquire_stop) returns: the runtime is Armed, no API call is in progress, and for every
@@ -89,6 +89,32 @@ Theorem C07_winddown_no_deadlock : forall y i,
   exists a e s', a <> ACli /\ step_stream s a e = Some s' /\ measure s' < measure s.
 Proof. exact winddown_no_deadlock. Qed.
 Print Assumptions C07_winddown_no_deadlock.
+
+(* ---- the same certificate for the whole time acquire_stop / acquire_abort wait for the workers (phase Pg: c_stop = CWaitJoin),
+   whether or not writes were refused -- a plain acquire_stop of a finite acquisition included.  `gmeasure` additionally counts
+   100 per frame the source may still deliver (max_frame_count - iframe while it is in its loop); an acquisition configured
+   with a huge max_frame_count has a huge but finite measure (it is "unbounded" only in that nobody waits for it: DESIGN 6.8).
+   Not in the model, hence assumptions of "stop returns": the source is not blocked for ever on a full queue (C03: a writer
+   resumes when readers consume; a registered monitor that has stopped consuming while frames remain stalls the writer by
+   design and is excluded by the property's own hypothesis), fairness, time passes. *)
+Theorem C07_stop_progress : forall y i a e s',
+  reachable y -> let s := stream_of y i in
+  Pg s -> step_stream s a e = Some s' -> a <> ACli -> gmeasure s' < gmeasure s \/ poll_event s a e = true.
+Proof. exact stop_progress. Qed.
+Print Assumptions C07_stop_progress.
+
+Theorem C07_stop_poll_bound : forall y i a e s',
+  reachable y -> let s := stream_of y i in
+  Pg s -> step_stream s a e = Some s' -> poll_event s a e = true -> gmeasure s' <= gmeasure s + 2.
+Proof. exact stop_poll_bound. Qed.
+Print Assumptions C07_stop_poll_bound.
+
+Theorem C07_stop_no_deadlock : forall y i,
+  reachable y -> let s := stream_of y i in
+  Pg s -> workers_idle s = false ->
+  exists a e s', a <> ACli /\ step_stream s a e = Some s' /\ gmeasure s' < gmeasure s.
+Proof. exact stop_no_deadlock. Qed.
+Print Assumptions C07_stop_no_deadlock.
 
 (* the phase is entered with live workers in the abort logged from the real runtime; the measure there lies between 1 and 200 *)
 Example C07_example_phase :
